@@ -4,6 +4,7 @@ import (
 	"errors"
 	"fmt"
 	"runtime"
+	"strconv"
 	"strings"
 
 	"github.com/richardwilkes/toolbox/errs"
@@ -110,4 +111,128 @@ func (recoveryArea) Run(line string) string {
 		}
 	}
 	return "ok " + f[1] + " " + f[2]
+}
+
+// Area `rec`: the same experiment as a DIFFERENTIAL stream against the Lean model `Rec.recovery` (Model/LogEntry.lean):
+// the harness prints what an observer of `defer errs.Recovery(handler)` can see — the panic that escapes (if any), how
+// often the handler ran, the error it received (Count(), and whether its cause IS the panic
+// value, is a fresh *errs.Error carrying the `%+v` text of the value, or is absent), and Count()/Message() of two
+// long-lived *errs.Error values, one of which may be the panic value itself.
+type recArea struct{}
+
+var (
+	recPanicKinds   = []string{"none", "string", "int", "tnilptr", "error", "errs", "agg", "runtime", "nil", "tnilerr", "fnilerr"}
+	recHandlerKinds = []string{"nil", "record", "panics", "panicse"}
+	errBadHandler   = errors.New("bad-handler-error")
+)
+
+func (recArea) Gen(_ *hx.Rng, n int, _ string, emit func(string)) {
+	for i := 0; i < n; i++ {
+		emit("rec " + recPanicKinds[i%len(recPanicKinds)] + " " + recHandlerKinds[(i/len(recPanicKinds))%len(recHandlerKinds)])
+	}
+}
+
+func (recArea) Run(line string) string {
+	f := strings.Fields(line)
+	if len(f) != 3 || f[0] != "rec" {
+		return "bad-op"
+	}
+	boom := errs.New("boom-errs")
+	agg := errs.Append(errs.New("agg-a"), errs.New("agg-b"))
+	var pv any
+	hasPanic := true
+	switch f[1] {
+	case "none":
+		hasPanic = false
+	case "string":
+		pv = "boom-string"
+	case "int":
+		pv = 42
+	case "tnilptr":
+		pv = (*nothing)(nil)
+	case "error":
+		pv = errBoom
+	case "errs":
+		pv = boom
+	case "agg":
+		pv = agg
+	case "runtime", "nil":
+	case "tnilerr":
+		pv = (*errs.Error)(nil)
+	case "fnilerr":
+		pv = (*foreignErr)(nil)
+	default:
+		return "bad-op"
+	}
+	calls := 0
+	var got error
+	var handler errs.RecoveryHandler
+	switch f[2] {
+	case "nil":
+	case "record":
+		handler = func(err error) { calls++; got = err }
+	case "panics":
+		handler = func(err error) { calls++; got = err; panic("bad handler") }
+	case "panicse":
+		handler = func(err error) { calls++; got = err; panic(errBadHandler) }
+	default:
+		return "bad-op"
+	}
+	escaped := func() (esc any) {
+		defer func() { esc = recover() }()
+		func() {
+			defer errs.Recovery(handler)
+			switch {
+			case !hasPanic:
+			case f[1] == "runtime":
+				var m map[string]int
+				m["x"] = 1
+			case f[1] == "nil":
+				panic(nil) //nolint:govet // on purpose
+			default:
+				panic(pv)
+			}
+		}()
+		return nil
+	}()
+	out := []string{"esc=-", "calls=" + strconv.Itoa(calls)}
+	if escaped != nil {
+		out[0] = "esc=" + panicText(escaped)
+	}
+	if calls == 1 {
+		count := "?" // (the wording of the library's own message is not compared)
+		if e, ok := got.(*errs.Error); ok && e != nil { //nolint:errorlint // the exact dynamic type is the observation
+			count = strconv.Itoa(e.Count())
+		}
+		cause := "other"
+		c := errors.Unwrap(got)
+		switch f[1] {
+		case "string", "int", "tnilptr":
+			if ce, ok := c.(*errs.Error); ok && ce != nil && ce != boom && ce != agg { //nolint:errorlint // see above
+				cause = "fresh:" + hx.Hex([]byte(ce.Message()))
+			} else if ok && ce != nil {
+				cause = "old"
+			}
+		case "runtime":
+			if _, ok := c.(runtime.Error); ok { //nolint:errorlint // see above
+				cause = "same"
+			}
+		case "nil":
+			if _, ok := c.(*runtime.PanicNilError); ok { //nolint:errorlint // see above
+				cause = "same"
+			}
+		default:
+			if pe, ok := pv.(error); ok && c == pe {
+				cause = "same"
+			}
+		}
+		if c == nil {
+			cause = "nil"
+		}
+		out = append(out, "count="+count, "cause="+cause)
+	} else if calls > 1 {
+		out = append(out, "arg=?")
+	}
+	cell := func(e *errs.Error) string { return strconv.Itoa(e.Count()) + ":" + hx.Hex([]byte(e.Message())) }
+	return strings.Join(append(out, "boom="+cell(boom), "agg="+cell(agg)), " ")
 }
